@@ -1,5 +1,6 @@
 (* O-C14(mysql): the implementation run on the literally renamed project (tables prefix+name) must emit the
    statements of the original project renamed by rename_stmt; and the model must agree on the renamed input. *)
+From VV.M1 Require Export PrefixHyp.
 From VV.MYSQL Require Export MysqlCorr Names.
 
 Definition rename_impl (p : string) (r : impl_result) : impl_result :=
@@ -25,5 +26,20 @@ Fixpoint literal_mismatches_from (p : string) (i : nat) (cs : list (mysql_case *
   | c :: r => match check_literal p c with
               | [] => literal_mismatches_from p (S i) r
               | l => (i, l) :: literal_mismatches_from p (S i) r
+              end
+  end.
+
+(* sub-check 3: MigrationPlan::with_prefix = literal renaming on the implementation (D10 repaired), whenever
+   every inline foreign key of the plan parses *)
+Definition check_with_prefix (p : string) (x : mysql_case * impl_result * impl_result) : list nat :=
+  let '(c, lit, wp) := x in
+  check_literal p (c, lit)
+  ++ (if forallb inline_fks_parse (mc_actions c) then (if impl_eqb wp lit then [] else [3%nat]) else []).
+Fixpoint with_prefix_mismatches_from (p : string) (i : nat) (cs : list (mysql_case * impl_result * impl_result)) : list (nat * list nat) :=
+  match cs with
+  | [] => []
+  | c :: r => match check_with_prefix p c with
+              | [] => with_prefix_mismatches_from p (S i) r
+              | l => (i, l) :: with_prefix_mismatches_from p (S i) r
               end
   end.
